@@ -3,8 +3,8 @@ import collections
 from .. import lib, e2e
 
 PROP = "C01"
-THEOREMS = ["E2E.csr_route_eq_locate", "E2E.csr_items_ok", "E2E.route_eq_locate", "E2E.root_map_ok", "E2E.route_agrees_with_decode", "E2E.unassigned_reaches_nothing"]
-IMPORTS = ["SocVerif.Props.C01"]
+THEOREMS = ["E2E.csr_route_eq_locate", "E2E.csr_items_ok", "E2E.route_eq_locate", "E2E.root_map_ok", "E2E.route_agrees_with_decode", "E2E.unassigned_reaches_nothing", "CsrT.tree_meets_spec", "Bridge.wb_read_through_tree", "Bridge.wb_write_is_atomic"]
+IMPORTS = ["SocVerif.Props.C01", "SocVerif.Props.C10E"]
 
 
 def _one(seed, idx):
@@ -19,6 +19,7 @@ def run(rep, tier):
     errs = [r for r in res if "harness_error" in r]
     if errs:
         raise lib.Infra("harness error: " + errs[0]["harness_error"] + errs[0].get("tb", ""))
+    res, n_unusable = lib.unusable_guard(rep, PROP, res, "generated hierarchies")
     # ---- correspondence of the Lean routing model (hardware address path) with the real root memory map
     lines = [l for r in res for l in r["lines"]]
     outs = lib.split_cases(lib.run_driver("e2e", lines))
